@@ -70,7 +70,7 @@ def directed():
 
 
 def gen_cases(tier, rng):
-    n = {"quick": 120, "widen": 300}.get(tier, 1200)
+    n = {"quick": 120, "widen": 300}.get(tier, 600)
     out = directed() if tier != "widen" else []
     for k in range(n):
         mps = rng.weighted([(4, 8), (4, 16), (3, 32), (1, 64)])
@@ -187,7 +187,9 @@ class Agent:
             if self.hdelay > 0:
                 self.hdelay -= 1
             elif r.chance(self.p_retry):
-                hs = (self.ep, 1, self.dseq, 1) if r.chance(60) else (self.ep, 0, self.dseq, 1)
+                # Retry bit with the repeated number, a repeated number alone, or the Retry bit with the next number
+                hs = r.weighted([(5, (self.ep, 1, self.dseq, 1)), (3, (self.ep, 0, self.dseq, 1)),
+                                 (2, (self.ep, 1, (self.dseq + 1) % 32, 1))])
                 self.hstate, self.tmo = "wait", 0
             else:
                 self.dseq = (self.dseq + 1) % 32
